@@ -865,8 +865,9 @@ STATIC = list(globals().get("STATIC", [])) + list(MC_STATIC)
 # ---- C17 units reused (added after seeded change C01-6 was missed): work_items_ / new_tasks_ / terminated_items_ are the lock-free
 # ---- back-end adapters of schedulers/lockfree_queue_backends.hpp; "push puts the element in exactly once, at the requested end" is their
 # ---- C17 contract and what queue.schedule_thread's stub wi_push assumes.  Same templates, same contracts, run here as well.
-_c17 = {}
-exec(compile(open("/verif/specs/C17/spec.py").read(), "/verif/specs/C17/spec.py", "exec"), _c17)
+_c17 = {"UNITS": [], "VX_NO_REUSE": True}
+if not globals().get("VX_NO_REUSE"):     # reuse is never transitive: the other spec is loaded without ITS reuse blocks (no cycles)
+    exec(compile(open("/verif/specs/C17/spec.py").read(), "/verif/specs/C17/spec.py", "exec"), _c17)
 for _u in _c17["UNITS"]:
     if _u.name.startswith("backends.") and not _u.name.startswith("backends.ciq.") and _u.kind != "bounded":
         _u.name = "c17." + _u.name
@@ -879,8 +880,9 @@ META["trusted_base"] = list(META.get("trusted_base", [])) + ["units c17.backends
 # ---- C02 units reused (added after seeded change C01-7 was missed): "never dropped" for a task that suspends needs its resume to
 # ---- arrive -- a resume() issued while the target still reads `active` is carried by the helper task set_active_state, which may
 # ---- abort only when the target was re-activated since (C02's contract).  Same templates, same contracts, run here as well.
-_c02 = {"VX_NO_REUSE": True}
-exec(compile(open("/verif/specs/C02/spec.py").read(), "/verif/specs/C02/spec.py", "exec"), _c02)
+_c02 = {"UNITS": [], "VX_NO_REUSE": True}
+if not globals().get("VX_NO_REUSE"):     # reuse is never transitive: the other spec is loaded without ITS reuse blocks (no cycles)
+    exec(compile(open("/verif/specs/C02/spec.py").read(), "/verif/specs/C02/spec.py", "exec"), _c02)
 for _u in _c02["UNITS"]:
     if _u.name in ("sts.set_thread_state", "sts.set_active_state"):
         _u.name = "c02." + _u.name
